@@ -18,6 +18,7 @@ use radix_engine::errors::*;
 use radix_engine::system::system_db_reader::*;
 use radix_engine::transaction::*;
 use radix_engine::updates::ProtocolVersion;
+use radix_engine::blueprints::package::*;
 use radix_engine_interface::blueprints::account::*;
 use radix_engine_interface::prelude::*;
 use radix_transactions::prelude::*;
@@ -135,7 +136,89 @@ impl Area for A {
     fn runner(&self) -> Box<dyn Runner> {
         Box::new(R { worlds: [None, None], cur: 0, obs: None })
     }
+    /// Declarative facts of the Account blueprint as the CURRENT tree installs them on a ledger with all protocol
+    /// updates applied (read back from the package substates of a freshly bootstrapped ledger):
+    /// the method -> accessibility table and the native code id behind the deposit exports.
+    fn consts(&self) -> Vec<(String, String)> {
+        let ledger = LedgerSimulatorBuilder::new().build();
+        let reader = SystemDatabaseReader::new(ledger.substate_db());
+        let code = |name: &str| METHODS.iter().position(|m| *m == name).unwrap_or(999);
+        let key = BlueprintVersionKey { blueprint: ACCOUNT_BLUEPRINT.to_string(), version: Default::default() };
+        let auth = reader
+            .read_object_collection_entry::<_, PackageBlueprintVersionAuthConfigEntryPayload>(
+                ACCOUNT_PACKAGE.as_node_id(),
+                ModuleId::Main,
+                ObjectCollectionKey::KeyValue(PackageCollection::BlueprintVersionAuthConfigKeyValue.collection_index(), &key),
+            )
+            .unwrap()
+            .unwrap()
+            .fully_update_and_into_latest_version();
+        let mut rows: Vec<(usize, u64)> = vec![];
+        match &auth.method_auth {
+            MethodAuthTemplate::StaticRoleDefinition(sd) => {
+                for (k, v) in sd.methods.iter() {
+                    let acc = match v {
+                        MethodAccessibility::Public => 0,
+                        MethodAccessibility::RoleProtected(l) if l.list.len() == 1 && l.list[0].key == OWNER_ROLE => 1,
+                        _ => 2,
+                    };
+                    rows.push((code(k.ident.as_str()), acc));
+                }
+            }
+            MethodAuthTemplate::AllowAll => rows.push((998, 0)),
+        }
+        rows.sort();
+        let def = reader.get_blueprint_definition(&BlueprintId::new(&ACCOUNT_PACKAGE, ACCOUNT_BLUEPRINT)).unwrap();
+        let mut exports: Vec<(usize, u64)> = vec![];
+        for m in &METHODS[0..6] {
+            let id = match def.function_exports.get(*m) {
+                Some(e) => [NativeCodeId::AccountCode1 as u64, NativeCodeId::AccountCode2 as u64, NativeCodeId::AccountCode3 as u64]
+                    .into_iter()
+                    .find(|c| CodeHash::from_hash(hash(c.to_be_bytes())) == e.code_hash)
+                    .unwrap_or(0),
+                None => 999,
+            };
+            exports.push((code(m), id));
+        }
+        let show = |v: &[(usize, u64)]| format!("[{}]", v.iter().map(|(a, b)| format!("({}, {})", a, b)).collect::<Vec<_>>().join(", "));
+        vec![
+            ("methodNames".into(), format!("[{}]\traw\tList String", METHODS.iter().map(|m| format!("{:?}", m)).collect::<Vec<_>>().join(", "))),
+            ("methodAuth".into(), format!("{}\traw\tList (Nat × Nat)", show(&rows))),
+            ("exportCode".into(), format!("{}\traw\tList (Nat × Nat)", show(&exports))),
+            ("accountCode1".into(), format!("{}", NativeCodeId::AccountCode1 as u64)),
+            ("accountCode2".into(), format!("{}", NativeCodeId::AccountCode2 as u64)),
+        ]
+    }
 }
+
+/// account method names; index = method code in `Generated/C39.lean` (`methodAuth`, `exportCode`)
+const METHODS: [&str; 25] = [
+    "try_deposit_or_refund",
+    "try_deposit_batch_or_refund",
+    "try_deposit_or_abort",
+    "try_deposit_batch_or_abort",
+    "deposit",
+    "deposit_batch",
+    "set_default_deposit_rule",
+    "set_resource_preference",
+    "remove_resource_preference",
+    "add_authorized_depositor",
+    "remove_authorized_depositor",
+    "withdraw",
+    "withdraw_non_fungibles",
+    "lock_fee",
+    "lock_contingent_fee",
+    "lock_fee_and_withdraw",
+    "lock_fee_and_withdraw_non_fungibles",
+    "create_proof_of_amount",
+    "create_proof_of_non_fungibles",
+    "burn",
+    "burn_non_fungibles",
+    "securify",
+    "balance",
+    "non_fungible_local_ids",
+    "has_non_fungible",
+];
 
 // ---------------------------------------------------------------- runner
 
